@@ -8,7 +8,12 @@
 (*   resultDir files in result/                                            *)
 (*   tmpDir    files in tmp/  (only what instructions of the case put      *)
 (*             there: Exactly itself never touches it)                     *)
-(*   tcwd      the test's current directory (act, or act/sub after `cd`)   *)
+(*   tcwd      the test's current directory (act, or act/sub after `cd`;   *)
+(*             "gone" once the action to check has removed the directory   *)
+(*             it stands in - fRm: the process is then left without a      *)
+(*             valid current directory, which must not disturb the rest    *)
+(*             of the execution, the verdict or the restoring of the       *)
+(*             process' own directory)                                     *)
 (*   tenv      variables set by `env` (visible to later instructions)      *)
 (*   penv      variables set in the environment of the Exactly PROCESS     *)
 (* The setup phase is a sequence of instruction kinds: a stub (observes    *)
@@ -19,9 +24,9 @@
 (***************************************************************************)
 EXTENDS PhaseExec
 
-VARIABLES endK, endI, endO, cleanupO, fCd, fEnv, fTmp,      \* the case (chosen in Init)
+VARIABLES endK, endI, endO, cleanupO, fCd, fEnv, fTmp, fRm,      \* the case (chosen in Init)
           top, resultDir, tmpDir, tcwd, tenv, penv, snaps
-svars == <<vars, endK, endI, endO, cleanupO, fCd, fEnv, fTmp, top, resultDir, tmpDir, tcwd, tenv, penv, snaps>>
+svars == <<vars, endK, endI, endO, cleanupO, fCd, fEnv, fTmp, fRm, top, resultDir, tmpDir, tcwd, tenv, penv, snaps>>
 
 SetupKinds == <<"stub">> \o (IF fCd THEN <<"dir", "cd">> ELSE <<>>) \o (IF fEnv THEN <<"env">> ELSE <<>>)
               \o (IF fTmp THEN <<"tmpfile">> ELSE <<>>) \o <<"stub">>
@@ -31,6 +36,7 @@ ResultFiles == {"stdout", "stderr", "exit-code"}
 
 SInit ==
   /\ fCd \in BOOLEAN /\ fEnv \in BOOLEAN /\ fTmp \in BOOLEAN
+  /\ fRm \in BOOLEAN /\ (fRm => fCd)      \* the action removes act/sub, where the test then stands
   /\ n = [p \in Phases |-> IF p = "conf" THEN 0 ELSE IF p = "setup" THEN Len(SetupKinds) ELSE 1]
   /\ tcStatus = "PASS" /\ mode \in Modes
   /\ endK \in (0..NF) \ {KConf, KMkSds}
@@ -46,7 +52,7 @@ SInit ==
   /\ log = <<>> /\ done = FALSE /\ result = <<>>
   /\ top = {} /\ resultDir = {} /\ tmpDir = {} /\ tcwd = "-" /\ tenv = {} /\ penv = {} /\ snaps = <<>>
 
-Frame == UNCHANGED <<endK, endI, endO, cleanupO, fCd, fEnv, fTmp>>
+Frame == UNCHANGED <<endK, endI, endO, cleanupO, fCd, fEnv, fTmp, fRm>>
 
 Scripted == IF k = endK /\ i = endI THEN endO ELSE "ok"
 
@@ -67,7 +73,8 @@ SForward ==
         THEN /\ (IF Scripted = "ok" THEN SetupEffect(SetupKinds[i]) ELSE UNCHANGED <<tcwd, tenv, tmpDir>>)
              /\ snaps' = IF SetupKinds[i] = "stub" THEN Append(snaps, Snap("setup", i)) ELSE snaps
              /\ UNCHANGED resultDir
-        ELSE /\ UNCHANGED <<tcwd, tenv, tmpDir>>
+        ELSE /\ UNCHANGED <<tenv, tmpDir>>
+             /\ tcwd' = IF s = <<"execute", "act">> /\ Scripted = "ok" /\ fRm THEN "gone" ELSE tcwd
              /\ snaps' = IF s[1] = "main" /\ s[2] \in {"ba", "assert"} THEN Append(snaps, Snap(s[2], i)) ELSE snaps
              \* the action to check has run: result/ holds its output (with --act it goes to the process' streams)
              \* (stdout and stderr are opened before the action starts: they exist, without exit-code, if it fails)
@@ -117,8 +124,13 @@ TmpUntouched == \A a \in 1..Len(snaps) : snaps[a].tmp \subseteq (IF fTmp THEN {"
 ProcessEnvUntouched == penv = {}
 \* a change of directory made by the case persists for the rest of the execution (and only the case makes one)
 CdPersists ==
-  /\ \A a \in 1..Len(snaps) : \A b \in a..Len(snaps) : snaps[a].cwd = "act/sub" => snaps[b].cwd = "act/sub"
+  /\ \A a \in 1..Len(snaps) : \A b \in a..Len(snaps) :
+        /\ snaps[a].cwd = "act/sub" => snaps[b].cwd \in {"act/sub", "gone"}
+        /\ snaps[a].cwd = "gone" => snaps[b].cwd = "gone"
+  /\ \A a \in 1..Len(snaps) : snaps[a].cwd = "gone" => (fRm /\ ActExecuted /\ snaps[a].phase # "setup")
   /\ \A a \in 1..Len(snaps) : (snaps[a].phase = "setup" /\ snaps[a].idx = Len(SetupKinds))
                                   => snaps[a].cwd = (IF fCd THEN "act/sub" ELSE "act")
   /\ \A a \in 1..Len(snaps) : snaps[a].cwd = "act/sub" => fCd
+\* removing the directory the test stands in does not change how the run ends (nor ProcessStateRestored, RemovedAtEnd)
+CwdRemovalHarmless == (done /\ result # <<>> /\ endK = 0 /\ cleanupO = "ok") => result[3] = "PASS"
 =============================================================================
